@@ -100,7 +100,11 @@ func init() {
 	c20 := func(fn string, tier string, vals ...int) HSpec {
 		var cs []map[string]int64
 		for _, v := range vals {
-			cs = append(cs, cfg("validators", v))
+			if v < 0 { // negative: also explore present / absent / missing-from-commit statuses
+				cs = append(cs, cfg("validators", -v, "statuses", 1))
+			} else {
+				cs = append(cs, cfg("validators", v))
+			}
 		}
 		return HSpec{Pkg: "coreV2/minter", Func: fn, Tier: tier, Configs: cs, Bounds: "validators as configured, every stake an unbounded positive integer, every vote pattern; big.Float as exact reals (the float64 constant 2./3. is exact; the 64-bit rounding of the quotient is outside this harness and covered by native replay of each counterexample)"}
 	}
@@ -108,11 +112,12 @@ func init() {
 		"all validators are recorded present in the block (presence is handled by calculatePowers, which the harness runs)",
 		"math/big.Float modelled over exact reals in this harness (FloatMode real)",
 	}, commonAssumptions...), Harnesses: []HSpec{
-		c20("VerifHarness_C20_Halt", "quick", 2, 3),
-		c20("VerifHarness_C20_Commission", "quick", 2),
+		c20("VerifHarness_C20_Halt", "quick", 2, 3, -2),
+		c20("VerifHarness_C20_Commission", "quick", 2, -2),
 		c20("VerifHarness_C20_Network", "quick", 2),
-		c20("VerifHarness_C20_Commission", "thorough", 3),
-		c20("VerifHarness_C20_Network", "thorough", 3),
+		c20("VerifHarness_C20_Halt", "thorough", -3),
+		c20("VerifHarness_C20_Commission", "thorough", 3, -3),
+		c20("VerifHarness_C20_Network", "thorough", 3, -2, -3),
 	}}
 	registry["C13"] = &Check{ID: "C13", Assumptions: append([]string{
 		"pre-state of a pool: both reserves > 0 (re-established by every harness as a post-condition), LP supply > minimum liquidity",
@@ -124,5 +129,7 @@ func init() {
 		{Pkg: swapPkg, Func: "VerifHarness_C13_MintBurn", Tier: "quick", Opts: gosym.HarnessOpts{Backends: nia}, Bounds: "unbounded positive integers"},
 		{Pkg: swapPkg, Func: "VerifHarness_C13_BurnShare", Tier: "quick", Opts: gosym.HarnessOpts{Backends: nia}, Bounds: "unbounded positive integers"},
 		{Pkg: swapPkg, Func: "VerifHarness_C13_CreateLocksBound", Tier: "quick", Opts: gosym.HarnessOpts{Backends: nia}, Bounds: "unbounded positive integers; sqrt by contract"},
+		{Pkg: swapPkg, Func: "VerifHarness_C13_SellWithOrders", Tier: "quick", Configs: []map[string]int64{cfg("orders", 0), cfg("orders", 1)}, Bounds: "concrete pool 10000/10000 BIP and concrete resting orders; taker amount symbolic in (0, 100000 BIP]; order prices are concrete big.Floats executed bit-exactly"},
+		{Pkg: swapPkg, Func: "VerifHarness_C13_SellWithOrders", Tier: "thorough", Configs: []map[string]int64{cfg("orders", 2)}, Bounds: "as above with two order levels"},
 	}}
 }
